@@ -10,6 +10,7 @@ from sx import core, hooks, harness as H
 from sx.core import SymInt, SymReal, SymBool
 from sx.vals import SymSeq, ZStr
 
+DEFAULT_TIMEOUT_S = 40          # a case of this check takes about a second; a tree on which it takes longer than this is not explored further
 PROPERTY = "C10"
 LEVEL = "model_checking"
 CODE = ["yowsup/layers/protocol_messages/protocolentities/attributes/converter.py:AttributesConverter.* (all *_to_proto / proto_to_* / message_to_protobytes / protobytes_to_message)",
